@@ -54,11 +54,19 @@ def centre(draw, dim3=True):
             c[2] = c[0] - 0.53 if abs(c[0] - 0.53 - c[1]) > 1e-3 else c[0] - 0.91
     if not dim3:
         c[2] = 0.0
-    return {"rel": c, "container": draw(st.sampled_from(["tuple", "list", "ndarray"])), "kind": kind}
+    containers = ["tuple", "list", "ndarray"] + (["omitted", "omitted"] if kind == "origin" else [])
+    return {"rel": c, "container": draw(st.sampled_from(containers)), "kind": kind}
+
+
+class Omitted(tuple):
+    """The centre argument left out (the constructors default to the origin): behaves like (0, 0, 0) for the oracles and
+    is dropped from the argument list by checks.common.call."""
 
 
 def make_centre(cdict, scale):
     c = [x * scale for x in cdict["rel"]]
+    if cdict["container"] == "omitted":
+        return Omitted((0.0, 0.0, 0.0))
     if cdict["container"] == "tuple":
         return tuple(c)
     if cdict["container"] == "list":
